@@ -184,6 +184,7 @@ func normalizeBase(in string) string {
 
 	if u.Scheme == fileScheme {
 		u.RawQuery = "" // any query component is irrelevant for a local file
+		u.ForceQuery = false
 	}
 
 	if u.Scheme != "" {
@@ -202,5 +203,6 @@ func normalizeBase(in string) string {
 	u.Scheme = fileScheme
 	u.Path = absPath(u.Path) // platform-dependent
 	u.RawQuery = ""          // any query component is irrelevant for a base
+	u.ForceQuery = false
 	return u.String()
 }
